@@ -6,8 +6,12 @@ Array-memoised evaluation of the model definitions for the line-protocol driver.
 The definitions of `Chain.lean` are closures over closures; evaluating `contract` literally would
 recompute every partial contraction for every entry.  The functions below are the same
 definitions with the intermediate vectors / matrices / tensors tabulated into arrays
-(`memoVec n v` agrees with `v` on indices `< n`).  The driver cross-checks them against the
-literal definitions on every run (`selfcheck` lines).  Not used by any theorem.
+(`ofArr (tabVec n v)` agrees with `v` on indices `< n`).  The driver cross-checks them against the
+literal definitions on every run (`selfcheck` lines on small chains).  Not used by any theorem.
+
+(Arrays are computed by the *caller* and then captured: a definition of function type such as
+`memo n v : Vec α := let arr := …; fun a => arr[a]` would be eta-expanded by the compiler and
+rebuild the array on every call.)
 -/
 namespace TenpyModel.MPS.Eval
 open TenpyModel.MPS
@@ -15,42 +19,68 @@ open TenpyModel.MPS
 universe u
 variable {α : Type u} [Zero α] [One α] [Add α] [Mul α]
 
-def memoVec (n : Nat) (v : Vec α) : Vec α :=
-  let arr := Array.ofFn (n := n) (fun i => v i.val)
-  fun a => arr.getD a 0
+def tabVec (n : Nat) (v : Vec α) : Array α := Array.ofFn (n := n) (fun i => v i.val)
+def ofArr (arr : Array α) : Vec α := fun a => arr.getD a 0
 
-def memoMat (m n : Nat) (E : Mat α) : Mat α :=
-  let arr := Array.ofFn (n := m * n) (fun i => E (i.val / n) (i.val % n))
+def tabMat (m n : Nat) (E : Mat α) : Array α :=
+  Array.ofFn (n := m * n) (fun i => E (i.val / n) (i.val % n))
+def ofArrMat (m n : Nat) (arr : Array α) : Mat α :=
   fun a b => if a < m ∧ b < n then arr.getD (a * n + b) 0 else 0
 
-def memoT3 (m d n : Nat) (T : T3 α) : T3 α :=
-  let arr := Array.ofFn (n := m * d * n) (fun i => T (i.val / n / d) (i.val / n % d) (i.val % n))
+def tabT3 (m d n : Nat) (T : T3 α) : Array α :=
+  Array.ofFn (n := m * d * n) (fun i => T (i.val / n / d) (i.val / n % d) (i.val % n))
+def ofArrT3 (m d n : Nat) (arr : Array α) : T3 α :=
   fun a p c => if a < m ∧ p < d ∧ c < n then arr.getD ((a * d + p) * n + c) 0 else 0
 
-def tabSite (s : RSite α) : RSite α := { s with M := memoT3 s.dL s.d s.dR s.M }
+def tabSite (s : RSite α) : RSite α :=
+  let arr := tabT3 s.dL s.d s.dR s.M
+  { s with M := ofArrT3 s.dL s.d s.dR arr }
 
 def contractE : Vec α → List (RSite α) → List Nat → Vec α
   | v, [], [] => v
-  | v, s :: ss, p :: ps => contractE (memoVec s.dR (vstep v s p)) ss ps
+  | v, s :: ss, p :: ps =>
+    let arr := tabVec s.dR (vstep v s p)
+    contractE (ofArr arr) ss ps
   | _, _, _ => fun _ => 0
 
 /-- all amplitudes in row-major order of `σ`; each closed by `cl` into a list of scalars -/
 def allAmpsE (cl : Vec α → List α) : Vec α → List (RSite α) → List α
   | v, [] => cl v
-  | v, s :: ss => (List.range s.d).flatMap (fun p => allAmpsE cl (memoVec s.dR (vstep v s p)) ss)
+  | v, s :: ss => (List.range s.d).flatMap (fun p =>
+      let arr := tabVec s.dR (vstep v s p)
+      allAmpsE cl (ofArr arr) ss)
 
-/-- two-stage transfer-matrix step (`LP·B_ket`, then `B_bra^*·…`), extensionally `tmStep` -/
-def tmStepE (cj : α → α) (E : Mat α) (sb sk : RSite α) : Mat α :=
-  let T1 := memoT3 sb.dL sk.d sk.dR (fun a' p b => sumN sk.dL (fun a => E a' a * sk.M a p b))
-  memoMat sb.dR sk.dR (fun b' b => sumN sk.d (fun p => sumN sb.dL (fun a' => cj (sb.M a' p b') * T1 a' p b)))
+/-- two-stage transfer-matrix step (`LP·B_ket`, then `B_bra^*·…`), extensionally `tmStep`;
+returns the tabulated matrix -/
+def tmStepE (cj : α → α) (E : Mat α) (sb sk : RSite α) : Array α :=
+  let t1 := tabT3 sb.dL sk.d sk.dR (fun a' p b => sumN sk.dL (fun a => E a' a * sk.M a p b))
+  let T1 := ofArrT3 sb.dL sk.d sk.dR t1
+  tabMat sb.dR sk.dR (fun b' b => sumN sk.d (fun p => sumN sb.dL (fun a' => cj (sb.M a' p b') * T1 a' p b)))
 
 def tmFoldE (cj : α → α) : Mat α → List (RSite α) → List (RSite α) → Mat α
   | E, [], [] => E
-  | E, sb :: sbs, sk :: sks => tmFoldE cj (tmStepE cj E sb sk) sbs sks
+  | E, sb :: sbs, sk :: sks =>
+    let arr := tmStepE cj E sb sk
+    tmFoldE cj (ofArrMat sb.dR sk.dR arr) sbs sks
   | _, _, _ => fun _ _ => 0
 
 def overlapTME (cj : α → α) (vb vk : Vec α) (sbs sks : List (RSite α)) (nb nk : Nat)
     (wb wk : Vec α) : α :=
   closeMat cj nb nk (tmFoldE cj (outer cj vb vk) (sbs.map tabSite) (sks.map tabSite)) wb wk
+
+end TenpyModel.MPS.Eval
+
+namespace TenpyModel.MPS.Eval
+open TenpyModel.MPS
+universe u
+variable {α : Type u} [Zero α] [One α] [Add α] [Mul α]
+
+/-- `sampleGo` with tabulated intermediate vectors -/
+def sampleGoE (w winv : Nat → α) : Nat → Vec α → α → List (RSite α) → List Nat → α
+  | i, v, tot, [s], [p] => tot * w i * (vstep v s p 0 * winv i)
+  | i, v, tot, s :: ss, p :: ps =>
+      let arr := tabVec s.dR (fun b => winv i * vstep v s p b)
+      sampleGoE w winv (i + 1) (ofArr arr) (tot * w i) ss ps
+  | _, _, _, _, _ => 0
 
 end TenpyModel.MPS.Eval
